@@ -3,10 +3,12 @@
 //! Thin public face of the private fair queue so that a deterministic
 //! simulator can drive it with scripted streams. Nothing here is part of the
 //! crate's API; with the cfg off this file is not compiled at all.
-use crate::fair_queue::FairQueue;
+use crate::fair_queue::{FairQueue, QueueInner};
 use futures::Stream;
+use parking_lot::Mutex;
 use std::hash::Hash;
 use std::pin::Pin;
+use std::sync::Arc;
 use std::task::{Context, Poll};
 
 pub struct FairQueueProbe<S, K: Clone>(FairQueue<S, K>);
@@ -31,5 +33,26 @@ where
 
     pub fn poll_next(&mut self, cx: &mut Context<'_>) -> Poll<Option<(K, T)>> {
         Pin::new(&mut self.0).poll_next(cx)
+    }
+
+    /// The handle a socket backend holds: lets another party insert and remove
+    /// streams while `poll_next` is in progress.
+    pub fn handle(&self) -> FairQueueHandle<S, K> {
+        FairQueueHandle(self.0.inner())
+    }
+}
+
+pub struct FairQueueHandle<S, K: Clone>(Arc<Mutex<QueueInner<S, K>>>);
+
+impl<S, K> FairQueueHandle<S, K>
+where
+    K: Eq + Hash + Clone,
+{
+    pub fn insert(&self, k: K, s: S) {
+        self.0.lock().insert(k, s);
+    }
+
+    pub fn remove(&self, k: &K) {
+        self.0.lock().remove(k);
     }
 }
